@@ -338,7 +338,7 @@ SchemaSpec genSchema(Ctx& c) {
   return s;
 }
 
-struct AP { bool isOp; int serial; int p1, p2; };  // abstract pictogram (generation-time mirror of the model)
+struct AP { bool isOp; int serial; int p1, p2; bool execd{false}; };  // abstract pictogram (generation-time mirror of the model)
 struct Gen {
   Ctx& c;
   std::vector<AP> ps;
@@ -382,10 +382,10 @@ struct Gen {
     }
     ops.push_back(o);
   }
-  void exec(int target) { Op o; o.kind = EXEC; o.a = target; ops.push_back(o); }
+  void exec(int target) { Op o; o.kind = EXEC; o.a = target; ops.push_back(o); if (target < n()) ps[static_cast<size_t>(target)].execd = true; }
   void edit(int target, bool formal = false) {
     Op o; o.kind = EDIT; o.a = target;
-    const int k = c.ipick(0, formal ? 4 : 11);
+    const int k = c.ipick(0, formal ? 4 : (target < n() && ps[static_cast<size_t>(target)].isOp) ? 7 : 11);
     o.editKind = k < 4 ? 0 : k < 5 ? 1 : k < 8 ? 2 : k < 9 ? 3 : k < 11 ? 4 : 5;  // emplace term / emplace base / set expression / erase / set term / set convention
     o.e1 = c.ipick(0, 5);
     o.e2 = c.ipick(0, static_cast<int>(kTermDefs.size()) - 1);
@@ -418,13 +418,15 @@ struct Gen {
     if (k < 78) {
       const auto ib = idxBases(); const auto io = idxOps();
       int t;
-      if (!io.empty() && c.chance(1, 3)) t = io[static_cast<size_t>(c.ipick(0, static_cast<int>(io.size()) - 1))];
+      std::vector<int> ie; for (auto i : io) if (ps[static_cast<size_t>(i)].execd) ie.push_back(i);
+      if (!ie.empty() && c.chance(1, 3)) t = ie[static_cast<size_t>(c.ipick(0, static_cast<int>(ie.size()) - 1))];
+      else if (!io.empty() && c.chance(1, 8)) t = io[static_cast<size_t>(c.ipick(0, static_cast<int>(io.size()) - 1))];
       else t = ib.empty() ? 0 : ib[static_cast<size_t>(c.ipick(0, static_cast<int>(ib.size()) - 1))];
       edit(t);
       return;
     }
     if (k < 82) { Op o; o.kind = ANNOUNCE; o.a = c.ipick(0, n() - 1); ops.push_back(o); return; }
-    if (k < 86) { Op o; o.kind = EXEC_ALL; ops.push_back(o); return; }
+    if (k < 86) { Op o; o.kind = EXEC_ALL; ops.push_back(o); for (auto& p : ps) p.execd = p.execd || p.isOp; return; }
     if (k < 90) {
       Op o; o.kind = ERASE; o.a = c.ipick(0, n() - 1);
       ops.push_back(o);
@@ -656,7 +658,7 @@ struct Runner {
       if (h->empty()) { w.pend.erase(p.id); continue; }
       const auto it = w.pend.find(p.id);
       if (it == w.pend.end() || it->second.empty()) continue;
-      if (st != ccl::ops::Status::done) continue;
+      if (st != ccl::ops::Status::done) { c.count("checked:freshness-obligation-honoured"); continue; }
       bool outside = false; std::string why;
       for (auto& o : it->second) { if (!o.window) { outside = true; why = o.why; } }
       if (outside) {
@@ -704,6 +706,7 @@ struct Runner {
     CHECK(expect != nullptr, "exec-undefined", "operation " + std::to_string(pid) + " executed although the synthesis of its parents is not correctly defined" + after);
     const auto want = rowsOf(*expect, -1);
     const auto got = rowsOf(dr->schema, 1);
+    c.count("checked:exec-result");
     CHECK(got == want, "exec-result", "tracked part of the result of " + std::to_string(pid) + " = " + rowsStr(got) + " but synthesis of the parents' current schemas = " + rowsStr(want) + after);
     return pbt::pass();
   }
@@ -728,6 +731,7 @@ struct Runner {
   Verdict checkCarryOver(PictID pid, const OldResult& old, bool parentsReexecuted, const std::string& after) {
     if (!old.present || old.untracked.empty()) return pbt::pass();
     auto* dr = docOf(pid);
+    c.count("checked:carry-over");
     const auto now = rowsOf(dr->schema, 0);
     // pair by the unique convention marker the harness gave every addition
     std::map<std::string, std::string> sigma;           // old alias -> new alias
@@ -771,6 +775,7 @@ struct Runner {
       auto sigmaMarked = sigma;
       for (auto& id : used) if (!sigma.count(id)) sigmaMarked[id] = id + "_ERROR";
       const auto wantMarked = substGlobals(o->def, sigmaMarked);
+      c.count("checked:carried-definition");
       CHECK(n->def == want || n->def == wantMarked, "carry-over-definition", "user addition " + o->str() + " arrived as " + n->str() + ", expected definition " + want + " or " + wantMarked + after);
     }
     return pbt::pass();
